@@ -122,6 +122,7 @@ def step (st : St) (op : String) : St :=
     match i.toNat? with
     | some i => st.push (st.s.deleteIdx i)
     | none => { st with bad := true }
+  | ["POP"] => st.push (st.s.pop true)
   | ["F"] => { st with s := st.s.freeze, res := st.res ++ "T" }
   | ["P"] => { st with s := st.s.preventExtensions, res := st.res ++ "T" }
   | ["FILL", f, n, v] =>
